@@ -165,7 +165,7 @@ def run(chk):
     chk.assume("lag and lookback parameters are non-negative; user-written algos are out of scope")
     na, ns = algo_extent(chk, "C04")
     chk.floor_count("C04.R1:algos analysed", na, 40)
-    chk.floor_count("C04.R1:time-indexed access sites", ns, 20)
+    chk.floor_count("C04.R1:time-indexed access sites", ns, 12)
     universe_accessor(chk, "C04")
     core_reads(chk, "C04")
     core_rules.accessor_rules(chk, "C04")
